@@ -89,6 +89,7 @@ class Sim:
         self.clock = VClock(1_000_000.9)          # a clock with a fractional part (truncating it must not shorten a window)
         self.net = FakeNet()
         self.net.clock = self.clock
+        self.multi = unix == "multi"
         self.net.trace_enabled = False
         self.names = []
         self.servers = {}
@@ -187,7 +188,9 @@ class Sim:
             self.clock.advance(ev[1])
             return
         if kind == "fail":
-            self.servers[self.names[ev[1]]].health = ev[2]
+            # a dual-stack name fails socket() once per address within one attempt: that is one contact, so the
+            # "no socket can be created" kind is driven on single-address servers only
+            self.servers[self.names[ev[1]]].health = "refused" if (ev[2] == "nosocket" and self.multi) else ev[2]
             self.ever_failed.add(self.names[ev[1]])
             return
         if kind == "ok":
@@ -541,7 +544,7 @@ def random_sequence(rng, nserv):
         elif c < 0.8:
             seq.append(("adv", rng.choice([1, 1, 10, 11, 11, 50, 100, 101, 201, 0.4, 9.5, 10.2])))
         elif c < 0.92:
-            seq.append(("fail", rng.randrange(nserv), rng.choice(["refused", "timeout", "reset", "reset_on_recv"])))
+            seq.append(("fail", rng.randrange(nserv), rng.choice(["refused", "timeout", "reset", "reset_on_recv", "nosocket"])))
         else:
             seq.append(("ok", rng.randrange(nserv)))
     return seq
@@ -572,7 +575,7 @@ def shard(tier, seed, idx, n):
                     for pool, unix, own in ((False, False, False), (True, False, False), (False, True, False), (False, False, True),
                                             (False, "multi", False), (False, "caps", False)):
                         for bad in range(nserv):
-                            for kind in ("refused", "reset", "reset_on_recv"):
+                            for kind in ("refused", "reset", "reset_on_recv", "nosocket"):
                                 for opn in ("setmanyget_pairs", "setmanyget", "set_many", "setget_pair", "getmany_vs_get", "get", "get_many_big"):
                                     work += 1
                                     if work % n != idx:
@@ -582,6 +585,8 @@ def shard(tier, seed, idx, n):
                                         continue
                                     if opn == "get_many_big" and (unix or own or kind == "reset"):
                                         continue
+                                    if kind == "nosocket" and (unix == "multi" or own or opn in ("setmanyget", "getmany_vs_get")):
+                                        continue    # dual-stack names: socket() fails once per address, which is one attempt
                                     if unix == "caps" and (kind == "reset_on_recv" or opn in ("setmanyget_pairs", "getmany_vs_get", "setget_pair")):
                                         continue
                                     gap = 9.5 if (opn, kind) in (("get", "refused"), ("set_many", "reset")) else 11
